@@ -27,7 +27,7 @@ def startsId : TC → Bool
   | .word _ _ => true
   | .decInt => true
   | .numDot => true
-  | .num false => true
+  | .num false _ => true
   | _ => false
 
 /-- the first character of the token is a decimal digit -/
@@ -35,7 +35,7 @@ def startsDigit : TC → Bool
   | .lit i => headIs isDigit (litText i).toList
   | .decInt => true
   | .numDot => true
-  | .num false => true
+  | .num false _ => true
   | _ => false
 
 /-- what a punctuator could be extended with: the first characters of the next token -/
@@ -44,7 +44,7 @@ def firstText : TC → List Char
   | .regex _ => ['/']
   | .lineComment => ['/', '/']
   | .blockComment => ['/', '*']
-  | .num true => ['.']
+  | .num true _ => ['.']
   | .commas => [',']
   | _ => []
 
@@ -83,7 +83,7 @@ def directSafe (a b : TC) : Bool :=
   | .regex _ => !startsId b
   | .decInt => !startsId b && !headIs (· == '.') (firstText b)
   | .numDot => !startsId b
-  | .num _ => !startsId b
+  | .num _ _ => !startsId b
   | .lit i =>
     let s := (litText i).toList
     if endsWithSpace s then true
@@ -109,66 +109,152 @@ def rangeFrom : Nat → Nat → List Nat
   | i, n + 1 => i :: rangeFrom (i + 1) n
 
 /-- the codes of all token signatures (`tcCode`): the classes 1 … 22 and the table spellings 32 … -/
-def tokCodes : List Nat := rangeFrom 1 22 ++ rangeFrom 32 litTable.length
+def tokCodes : List Nat := rangeFrom 1 10 ++ rangeFrom 13 18 ++ rangeFrom 32 litTable.length
 
-/-- bit set (over symbols `2·b`) of the codes `b` that are NOT allowed directly after code `a` -/
-def unsafeRow (a : TC) : List Nat → Nat
+/-- rows grouped: (bit set of the token symbols `2·a` with this row, the row) -/
+def addRow (a row : Nat) : List (Nat × Nat) → List (Nat × Nat)
+  | [] => [(1 <<< (2 * a), row)]
+  | (m, r) :: rest => if r == row then (m ||| 1 <<< (2 * a), r) :: rest else (m, r) :: addRow a row rest
+
+/-- bit set (over symbols `2·b`) of the token codes `b` for which `ok a b` fails -/
+def badRow (ok : TC → TC → Bool) (a : TC) : List Nat → Nat
   | [] => 0
-  | b :: bs => (if okPair a (tcOfCode b) then 0 else 1 <<< (2 * b)) ||| unsafeRow a bs
+  | b :: bs => (if ok a (tcOfCode b) then 0 else 1 <<< (2 * b)) ||| badRow ok a bs
 
-/-- bit set of the symbols that may directly follow symbol `x` -/
-def succMask (x : Sym) : List Rect → Nat
+def groupRows (ok : TC → TC → Bool) : List Nat → List (Nat × Nat)
+  | [] => []
+  | a :: as => addRow a (badRow ok (tcOfCode a) tokCodes) (groupRows ok as)
+
+/-- the symbols in `filter` that directly follow some symbol of `src` -/
+def stepMask (src filter : Nat) : List Rect → Nat
   | [] => 0
-  | r :: rs => (if r.1.has x then r.2.bits else 0) ||| succMask x rs
+  | r :: rs => (if r.1.bits &&& src == 0 then 0 else r.2.bits &&& filter) ||| stepMask src filter rs
 
-def directOKFrom (F : List Rect) : List Nat → Bool
+def tokMask : List Nat → Nat
+  | [] => 0
+  | a :: as => 1 <<< (2 * a) ||| tokMask as
+
+/-- for every group of left tokens: no token of the group's bad row directly follows -/
+def directGroupsOK (F : List Rect) (toks : Nat) : List (Nat × Nat) → Bool
   | [] => true
-  | a :: as => (succMask (2 * a) F &&& unsafeRow (tcOfCode a) tokCodes == 0) && directOKFrom F as
+  | (m, row) :: rest => (stepMask m toks F &&& row == 0) && directGroupsOK F toks rest
 
 /-- every two token signatures that are adjacent in `F` are boundary-safe, a known finding or an artefact -/
-def directOK (F : List Rect) : Bool := directOKFrom F tokCodes
+def directOK (F : List Rect) : Bool := directGroupsOK F (tokMask tokCodes) (groupRows okPair tokCodes)
 
-/-! ### what the bit-set check means -/
+/-! ### what the bit-set checks mean -/
 
-theorem succMask_spec (x y : Sym) : ∀ (F : List Rect), InF F x y → (succMask x F).testBit y = true := by
+theorem stepMask_spec (src filter : Nat) (x y : Sym) (hx : src.testBit x = true) (hy : filter.testBit y = true) :
+    ∀ (F : List Rect), InF F x y → (stepMask src filter F).testBit y = true := by
   intro F
   induction F with
   | nil => intro ⟨r, hr, _⟩; simp at hr
   | cons r rs ih =>
-    intro ⟨q, hq, hx, hy⟩
-    simp only [succMask, Nat.testBit_or, Bool.or_eq_true]
+    intro ⟨q, hq, hqx, hqy⟩
+    simp only [stepMask, Nat.testBit_or, Bool.or_eq_true]
     rcases List.mem_cons.mp hq with rfl | hq
     · left
-      have hx' : q.1.has x = true := hx
-      rw [hx']
-      exact hy
-    · exact Or.inr (ih ⟨q, hq, hx, hy⟩)
+      have hne : ¬ (q.1.bits &&& src == 0) = true := by
+        intro h0
+        have h1 : (q.1.bits &&& src).testBit x = true := by
+          rw [Nat.testBit_and]
+          have : q.1.bits.testBit x = true := hqx
+          rw [this, hx]; rfl
+        rw [beq_iff_eq] at h0
+        rw [h0] at h1
+        simp at h1
+      rw [if_neg hne, Nat.testBit_and]
+      have : q.2.bits.testBit y = true := hqy
+      rw [this, hy]; rfl
+    · exact Or.inr (ih ⟨q, hq, hqx, hqy⟩)
 
-theorem unsafeRow_spec (a : TC) (b : Nat) : ∀ (l : List Nat), b ∈ l → okPair a (tcOfCode b) = false →
-    (unsafeRow a l).testBit (2 * b) = true := by
+theorem tokMask_spec (b : Nat) : ∀ (l : List Nat), b ∈ l → (tokMask l).testBit (2 * b) = true := by
+  intro l
+  induction l with
+  | nil => intro h; simp at h
+  | cons c cs ih =>
+    intro hb
+    simp only [tokMask, Nat.testBit_or, Bool.or_eq_true]
+    rcases List.mem_cons.mp hb with rfl | hb
+    · left; simp [Nat.one_shiftLeft]
+    · exact Or.inr (ih hb)
+
+theorem badRow_spec (ok : TC → TC → Bool) (a : TC) (b : Nat) : ∀ (l : List Nat), b ∈ l → ok a (tcOfCode b) = false →
+    (badRow ok a l).testBit (2 * b) = true := by
   intro l
   induction l with
   | nil => intro h; simp at h
   | cons c cs ih =>
     intro hb hok
-    simp only [unsafeRow, Nat.testBit_or, Bool.or_eq_true]
+    simp only [badRow, Nat.testBit_or, Bool.or_eq_true]
     rcases List.mem_cons.mp hb with rfl | hb
     · left
       rw [hok]
-      simp [Nat.one_shiftLeft, Nat.testBit_two_pow]
+      simp [Nat.one_shiftLeft]
     · exact Or.inr (ih hb hok)
 
-theorem directOKFrom_spec (F : List Rect) : ∀ (l : List Nat), directOKFrom F l = true → ∀ a ∈ l,
-    succMask (2 * a) F &&& unsafeRow (tcOfCode a) tokCodes = 0 := by
+theorem addRow_new (a row : Nat) : ∀ (g : List (Nat × Nat)), ∃ m, (m, row) ∈ addRow a row g ∧ m.testBit (2 * a) = true := by
+  intro g
+  induction g with
+  | nil => exact ⟨1 <<< (2 * a), by simp [addRow], by simp [Nat.one_shiftLeft]⟩
+  | cons e rest ih =>
+    obtain ⟨m0, r0⟩ := e
+    simp only [addRow]
+    split
+    · rename_i hr
+      have : r0 = row := by simpa using hr
+      subst this
+      exact ⟨m0 ||| 1 <<< (2 * a), by simp, by simp [Nat.testBit_or, Nat.one_shiftLeft]⟩
+    · obtain ⟨m, h1, h2⟩ := ih
+      exact ⟨m, List.mem_cons_of_mem _ h1, h2⟩
+
+theorem addRow_old (a row : Nat) (m0 r0 : Nat) (x : Nat) : ∀ (g : List (Nat × Nat)), (m0, r0) ∈ g → m0.testBit x = true →
+    ∃ m, (m, r0) ∈ addRow a row g ∧ m.testBit x = true := by
+  intro g
+  induction g with
+  | nil => intro h; simp at h
+  | cons e rest ih =>
+    intro h hx
+    obtain ⟨m1, r1⟩ := e
+    simp only [addRow]
+    rcases List.mem_cons.mp h with heq | h
+    · simp only [Prod.mk.injEq] at heq
+      obtain ⟨rfl, rfl⟩ := heq
+      split
+      · exact ⟨m0 ||| 1 <<< (2 * a), by simp, by simp [Nat.testBit_or, hx]⟩
+      · exact ⟨m0, by simp, hx⟩
+    · split
+      · exact ⟨m0, List.mem_cons_of_mem _ h, hx⟩
+      · obtain ⟨m, h1, h2⟩ := ih h hx
+        exact ⟨m, List.mem_cons_of_mem _ h1, h2⟩
+
+theorem groupRows_spec (ok : TC → TC → Bool) (a : Nat) : ∀ (l : List Nat), a ∈ l →
+    ∃ m, (m, badRow ok (tcOfCode a) tokCodes) ∈ groupRows ok l ∧ m.testBit (2 * a) = true := by
   intro l
   induction l with
-  | nil => intro _ a ha; simp at ha
+  | nil => intro h; simp at h
   | cons c cs ih =>
-    intro h a ha
-    simp only [directOKFrom, Bool.and_eq_true, beq_iff_eq] at h
+    intro ha
+    simp only [groupRows]
     rcases List.mem_cons.mp ha with rfl | ha
-    · exact h.1
-    · exact ih h.2 a ha
+    · exact addRow_new _ _ _
+    · obtain ⟨m, h1, h2⟩ := ih ha
+      exact addRow_old _ _ _ _ _ _ h1 h2
+
+theorem directGroupsOK_spec (F : List Rect) (toks : Nat) : ∀ (g : List (Nat × Nat)), directGroupsOK F toks g = true →
+    ∀ m row, (m, row) ∈ g → stepMask m toks F &&& row = 0 := by
+  intro g
+  induction g with
+  | nil => intro _ m row h; simp at h
+  | cons e rest ih =>
+    intro h m row hm
+    obtain ⟨m0, r0⟩ := e
+    simp only [directGroupsOK, Bool.and_eq_true, beq_iff_eq] at h
+    rcases List.mem_cons.mp hm with heq | hm
+    · simp only [Prod.mk.injEq] at heq
+      obtain ⟨rfl, rfl⟩ := heq
+      exact h.1
+    · exact ih h.2 m row hm
 
 /-- `directOK F`: for all token codes `a`, `b` (`tokCodes`: every signature class and every table spelling), if the
 symbol of `a` may be directly followed by the symbol of `b` in `F`, then the pair is boundary-safe (`directSafe`), the
@@ -179,12 +265,13 @@ theorem directOK_spec (F : List Rect) (h : directOK F = true) (a b : Nat) (ha : 
   | true => rfl
   | false =>
     exfalso
-    have h0 := directOKFrom_spec F tokCodes h a ha
-    have h1 := succMask_spec (2 * a) (2 * b) F hf
-    have h2 := unsafeRow_spec (tcOfCode a) b tokCodes hb hok
-    have : (succMask (2 * a) F &&& unsafeRow (tcOfCode a) tokCodes).testBit (2 * b) = true := by
-      rw [Nat.testBit_and, h1, h2]; rfl
-    rw [h0] at this
+    obtain ⟨m, hm, hma⟩ := groupRows_spec okPair a tokCodes ha
+    have hz := directGroupsOK_spec F _ _ h m _ hm
+    have s2 := stepMask_spec m (tokMask tokCodes) (2 * a) (2 * b) hma (tokMask_spec b tokCodes hb) F hf
+    have s3 := badRow_spec okPair (tcOfCode a) b tokCodes hb hok
+    have : (stepMask m (tokMask tokCodes) F &&& badRow okPair (tcOfCode a) tokCodes).testBit (2 * b) = true := by
+      rw [Nat.testBit_and, s2, s3]; rfl
+    rw [hz] at this
     simp at this
 
 end CalmVerif.TokenAdj
